@@ -433,6 +433,10 @@ def calcN(ctx, thetas, k):
 
     compare(ctx, "calculate_N", "SE23Quat", ev, mk, ref, thetas, pairs, info)
     ad_finite(ctx, "calculate_N", "SE23Quat", [x], [out], mk, pairs)
+    if k == 0:
+        # the function that consumes N: exp_mixed with arbitrary increments of magnitude <= 1 rad (5x5 expm oracle, shared with C08)
+        from .c08 import general_exp_mixed
+        general_exp_mixed(ctx, ctx.rng("c06:general_exp_mixed"), 1500 if ctx.quick else 40000, sub="exp_mixed_accuracy", max_angle=1.0, kinds=("quat", "mrp"))
 
 
 def conversions_ad(ctx):
